@@ -270,6 +270,11 @@ def run(chk):
                 cases.append(("sched", tiled, shp, i8))
         cases.append(("existing", tiled, ("m0", "n0", "k0"), (("m0", 2), ("n0", 2), ("k0", 2)), None, 0))
         cases.append(("existing", tiled, ("m0", "n0", "k0"), (("m0", 2), ("n0", 2), ("k0", 2)), "n", 1))
+        # explicit layout on every single operand position, including the output only
+        cases.append(("existing", tiled, ("m0", "n0", "k0"), (("m0", 2), ("n0", 2), ("k0", 2)), None, 1))
+        cases.append(("existing", tiled, ("m0", "n0", "k0"), (("m0", 2), ("n0", 2), ("k0", 2)), None, 2))
+        cases.append(("existing", tiled, ("m0", "n0", "k0"), (("m0", 2), ("n0", 2), ("k0", 2)), "n", 3))
+        cases.append(("existing", tiled, ("n0", "m0", "k0"), (("m0", 2), ("n0", 2), ("k0", 2)), None, 2))
     if quick and len(cases) > 260:
         keep = [c for c in cases if c[0] != "gemm"]
         cases = keep + rnd.sample([c for c in cases if c[0] == "gemm"], 260 - len(keep))
